@@ -163,7 +163,9 @@ def run_scaling(spec):
     ref = max(float(np.max(np.abs(rise1))), 1e-300)
     err = float(np.max(np.abs(rise2 - s * rise1))) / (max(s, 1.0) * ref)
     o.metric("linearity_rel_err", err)
-    o.check(err <= 1e-9, "temperature_rise_linear_in_power", "max |rise(sP) - s rise(P)| = %.3e of the rise" % err)
+    # (absolute floor: with a zero power profile both rises are round-off of T0)
+    o.check(err * max(s, 1.0) * ref <= 1e-9 * max(s, 1.0) * ref + 1e-11 * T0, "temperature_rise_linear_in_power",
+            "max |rise(sP) - s rise(P)| = %.3e of the rise" % err)
     for a, (d0, d1) in enumerate(zip(out[0][1], out[1][1])):
         o.check(abs(d1 - s * d0) <= 1e-10 * max(abs(d1), 1e-300) + 1e-12, "deposited_scales", "asm %d" % a)
     for a, (d0, d2) in enumerate(zip(out[0][1], out[2][1])):
